@@ -37,6 +37,21 @@ HITS = ('hit_ragged_right_set', 'hit_index_eq_columns', 'hit_accept', 'hit_rejec
 NAMES = ('a', 'b', 'x', 'y', '')     # the empty string is a name like any other
 
 
+
+def _triple(c):
+    """What the context reports as (objects, properties, bools) - read, then whatever
+    mutable containers were handed out are changed by the caller, then read again:
+    "represented faithfully" is about the context, not about one lucky first read."""
+    first = (tuple(c.objects), tuple(c.properties), [tuple(r) for r in c.bools])
+    for handed in (c.bools, c.objects, c.properties):
+        if isinstance(handed, list):
+            handed.reverse()
+            handed.append(('\x00junk',))
+    again = (tuple(c.objects), tuple(c.properties), [tuple(r) for r in c.bools])
+    if again != first:
+        return ('a second read differs from the first', first, again)
+    return first
+
 def name_lists():
     for r in range(4):
         yield from itertools.product(NAMES, repeat=r)
@@ -105,6 +120,10 @@ def run_constructor(shard):
                     try:
                         c = concepts.Context(o_arg, p_arg, rows)
                         err = None
+                        if fi:      # the caller's own list stays the caller's: changing it
+                            o_arg.append('\x00later')     # afterwards must not reach the context
+                        else:
+                            p_arg.append('\x00later')
                     except ValueError:
                         err = 'ValueError'
                     except Exception as e:
@@ -117,7 +136,7 @@ def run_constructor(shard):
                             V.append(common.violation(ID, 'valid-accepted', case, 'a context', err))
                         else:
                             exp = [tuple(bool(x) for x in r) for r in rows]
-                            got = (tuple(c.objects), tuple(c.properties), [tuple(r) for r in c.bools])
+                            got = _triple(c)
                             if got != (tuple(objs), tuple(props), exp):
                                 V.append(common.violation(ID, 'accepted-faithful', case,
                                                           [objs, props, exp], got))
@@ -296,7 +315,7 @@ def run_fromdict(shard):
                             V.append(common.violation(ID, 'fromdict-valid-accepted', case,
                                                       'a context', err))
                         else:
-                            got = (tuple(c.objects), tuple(c.properties), [tuple(r) for r in c.bools])
+                            got = _triple(c)
                             if got != exp:
                                 V.append(common.violation(ID, 'fromdict-accepted-faithful', case,
                                                           exp, got))
@@ -372,7 +391,7 @@ def run_wide(tier):
                     V.append(common.violation(ID, 'fromdict-valid-accepted', case, 'a context',
                                               err + (': ' + msg if err == 'ValueError' else '')))
                 else:
-                    got = (tuple(c.objects), tuple(c.properties), [tuple(r) for r in c.bools])
+                    got = _triple(c)
                     if got != exp:
                         V.append(common.violation(ID, 'fromdict-accepted-faithful', case, None, None))
             else:
@@ -458,7 +477,7 @@ def replay(v):
     if ok and err is not None:
         out.append(common.violation(ID, v['clause'], c, 'a context', err))
     elif ok:
-        got = (tuple(ctx.objects), tuple(ctx.properties), [tuple(r) for r in ctx.bools])
+        got = _triple(ctx)
         if got != (tuple(exp[0]), tuple(exp[1]), [tuple(r) for r in exp[2]]):
             out.append(common.violation(ID, v['clause'], c, exp, got))
     elif err != 'ValueError':
